@@ -246,11 +246,43 @@ def _cross_budget():
 
 
 def _cross_check(formulas, timeout_ms=4000):
+    """cvc5 runs in a forked child that is killed after the budget: its own time limit is not honoured on every NRA query"""
+    import os
+    import select
+    import signal
     _CROSS_USED[0] += 1
+    text = to_smt2(formulas)
+    rfd, wfd = os.pipe()
+    pid = os.fork()
+    if pid == 0:
+        os.close(rfd)
+        try:
+            out = cvc5_check(text, timeout_ms)
+        except BaseException:  # noqa
+            out = 'error'
+        try:
+            os.write(wfd, str(out).encode())
+        finally:
+            os._exit(0)
+    os.close(wfd)
+    r = 'unknown'
+    ready, _, _ = select.select([rfd], [], [], timeout_ms / 1000.0 + 3.0)
+    if ready:
+        try:
+            r = os.read(rfd, 64).decode() or 'error'
+        except OSError:
+            r = 'error'
+    else:
+        try:
+            os.kill(pid, signal.SIGKILL)
+        except OSError:
+            pass
+    os.close(rfd)
     try:
-        r = cvc5_check(to_smt2(formulas), timeout_ms)
-    except Exception:  # noqa
-        r = 'error'
+        os.waitpid(pid, 0)
+    except OSError:
+        pass
+
     k = {'unsat': 'agree', 'sat': 'disagree', 'unknown': 'unknown'}.get(r, 'error')
     STATS.cross[k] += 1
     return k
